@@ -68,12 +68,20 @@ EmptyTree == [ leaf |-> << >>, cont |-> {}, ord |-> << >> ]
 Paths(T) == DOMAIN T.leaf \cup T.cont
 
 -----------------------------------------------------------------------------
-\* schema access (DS is a parameter of every operator that needs it)
+\* schema access.  `DS' (a parameter of every operator that needs it) is the INDEXED
+\* schema built once by IndexDS from the sequence of node records:
+\*   [node : schema path -> node record, kids : schema path -> set of child records]
 
-SNodes(DS) == SeqToSet(DS)
-HasSNode(DS, sp) == \E n \in SNodes(DS) : n.sp = sp
-SNode(DS, sp) == CHOOSE n \in SNodes(DS) : n.sp = sp
-SChildren(DS, sp) == { n \in SNodes(DS) : Len(n.sp) = Len(sp) + 1 /\ IsPrefixOf(sp, n.sp) }
+IndexDS(seq) ==
+    LET nodes == SeqToSet(seq)
+        sps == { n.sp : n \in nodes } \cup { << >> }
+    IN [ node |-> [ sp \in { n.sp : n \in nodes } |-> CHOOSE n \in nodes : n.sp = sp ],
+         kids |-> [ sp \in sps |-> { n \in nodes : Len(n.sp) = Len(sp) + 1 /\ IsPrefixOf(sp, n.sp) } ] ]
+
+SNodes(DS) == { DS.node[sp] : sp \in DOMAIN DS.node }
+HasSNode(DS, sp) == sp \in DOMAIN DS.node
+SNode(DS, sp) == DS.node[sp]
+SChildren(DS, sp) == DS.kids[sp]
 
 KindOf(DS, p) == SNode(DS, SPath(p)).kind
 
